@@ -287,6 +287,9 @@ NONINT_SEQ = [
     ('seq-float', 'shorts 1.5', 'shorts 1'),
     ('seq-expr', 'ints 1+1', 'ints 2'),
     ('seq-char', "bytes 'a' 0", 'bytes 97 0'),
+    ('seq-chars', "bytes 'ab' 0", 'bytes 97 0'),
+    ('seq-char-empty', "bytes '' 1", 'bytes 0 1'),
+    ('seq-char-escape2', "shorts '\\r\\n'", 'shorts 13'),
     ('seq-empty-hex', 'longs 0x', 'longs 0x0'),
     ('align-word', 'align four', 'align 4'),
     ('align-float', 'align 2.0', 'align 2'),
